@@ -18,7 +18,7 @@ func init() {
 	register(&Property{
 		ID:        "C03",
 		Title:     "Each local endpoint gets exactly its matching policies, correctly ordered",
-		Technique: "static analysis: field read-set closure of the btree comparators, operand-side slicing of ordering comparisons, constant evaluation of tie-break join formats, cut-set guard analysis, mirror-index pairing (dominance/post-dominance), value provenance of the sorted tier list, path enumeration with a truth-table decision of branch conditions (sort-key refresh), guard/order analysis of the label-inheritance parent registry",
+		Technique: "static analysis: field read-set closure of the btree comparators, operand-side slicing of ordering comparisons, constant evaluation of tie-break join formats, cut-set guard analysis, mirror-index pairing (dominance/post-dominance), value provenance of the sorted tier list, path enumeration with a truth-table decision of branch conditions (sort-key refresh), guard/order analysis of the label-inheritance parent registry, backward value-flow slice from the tiers argument of the per-endpoint callback (through felix/calc helpers, with the endpoint mapped through parameters), provenance of the items handed to the sorted btrees",
 		DesignRef: "DESIGN.md §3 C03",
 		Explanation: "Decides the structural clauses on PolicySorter / PolicyResolver / tier conversion. (total) Each comparator handed to btree.NewG in felix/calc reads, from both of its arguments, every field of its key type " +
 			"(model.PolicyKey via PolKV, tierInfoKey) and the Order it sorts by: two distinct policies or tiers can never compare equal and displace each other in the tree. (ascending) Every ordering comparison in those " +
@@ -29,7 +29,10 @@ func init() {
 			"endpointIDToPolicyIDs.Contains(endpoint, policy). (sortfeeds) sortedTierData is assigned only from PolicySorter.Sorted(); the per-endpoint lists are appended only inside range loops over sortedTierData / " +
 			"OrderedPolicies; Sorted() fills its slices only inside btree Ascend callbacks; OrderedPolicies has no other writer. " +
 			"(keysync) Wherever a *model.Tier value is at hand and a tierInfoKey is (re-)inserted into the sorted-tier tree, each mutable key field of the TierInfo (Order, Valid; derived from the tierInfoKey struct) has been stored from its source (the Tier's same-named field, or a constant) on the path, or the branch conditions crossed imply that it already equals the source (same pointer, equal pointees, or both nil) — so no update of a tier's order, including value -> nil, can be ignored. " +
-			"(inheritreg) The plumbing that makes inherited labels reach an endpoint: a parent (profile) entry is deleted from the registry only when it has neither children nor labels; when an item's parents are updated the item is unregistered from / the registry entry dropped for an old parent only if that parent is not among the new parents (membership test with the same projection on both sides) or after re-registration; the item's parent list only holds registry objects.",
+			"(inheritreg) The plumbing that makes inherited labels reach an endpoint: a parent (profile) entry is deleted from the registry only when it has neither children nor labels; when an item's parents are updated the item is unregistered from / the registry entry dropped for an old parent only if that parent is not among the new parents (membership test with the same projection on both sides) or after re-registration; the item's parent list only holds registry objects. " +
+			"(mirror/filter, sortfeeds/range, sortfeeds/owners) locate the per-endpoint filter loop by a backward value-flow slice from the []TierInfo argument of OnEndpointTierUpdate (appends, local structs, results of felix/calc helpers, local closures), so the loop may live in any helper; the endpoint being sent is the callback's first argument mapped through helper parameters, and the Contains test may sit in a predicate helper. " +
+			"(treekey) Every item handed to Delete on a sorted btree of PolicySorter is rebuilt from what is stored — PolKV.Value is (a copy of) the same tier's Policies[same key], every tierInfoKey field is read from the same-named field of one TierInfo before that field is reassigned — and every item handed to ReplaceOrInsert is what is stored from then on (PolKV{k,v} accompanied by Policies[k] = *v on every path; tierInfoKey fields read after their last reassignment): btree.Delete locates by the comparator, so an item rebuilt from the incoming update misses whenever the update changes the sort key and the policy/tier stays listed twice. " +
+			"(alternate, shared with C07) The label index reports match-started / match-stopped strictly alternating per (selector, endpoint): each callback is guarded by (non-)membership in a match map and paired with Add/Discard on it and its mirror, and a match-map entry is dropped only when its own set is empty — otherwise an endpoint deletion cannot find the matches to stop and policies stay attached to (and active for) endpoints they no longer match.",
 		NotDecided: "That selector evaluation picks exactly the matching endpoints (C07); antisymmetry/transitivity of the comparators beyond the direction of each comparison; nil-Order handling of TierLess; that only policies applying to a local endpoint are sent (C02 families).",
 		Assumptions: []string{
 			"go/types + go/ssa (x/tools v0.50.0) model of the current source, CGO_ENABLED=0 build",
@@ -97,6 +100,23 @@ func init() {
 				Old: "\tif parent.itemIDs == nil && parent.labels.IsNil() {\n", New: "\tif parent.itemIDs == nil || parent.labels.IsNil() {\n", Expect: "C03.inheritreg/delete/InheritIndex.discardParentIfEmpty"},
 			{Name: "item references a private parent object instead of the registered one", File: "felix/labelindex/label_inheritance_index.go",
 				Old: "\t\t\tparents[i] = idx.getOrCreateParent(pID)\n", New: "\t\t\tparents[i] = &parentData{id: pID}\n", Expect: "C03.inheritreg/refs/InheritIndex.UpdateLabels"},
+			{Name: "seed C03-3/C01-3: policy moved to another tier is deleted from the old tier's tree with the new metadata", File: "felix/calc/policy_sorter.go",
+				Old: "\t\toldPolicy := oldTierInfo.Policies[key]\n\t\toldTiKey := tierInfoKey{\n\t\t\tName:  oldTierInfo.Name,\n\t\t\tOrder: oldTierInfo.Order,\n\t\t\tValid: oldTierInfo.Valid,\n\t\t}\n\t\toldTierInfo.SortedPolicies.Delete(PolKV{Key: key, Value: &oldPolicy})\n",
+				New: "\t\toldTiKey := tierInfoKey{\n\t\t\tName:  oldTierInfo.Name,\n\t\t\tOrder: oldTierInfo.Order,\n\t\t\tValid: oldTierInfo.Valid,\n\t\t}\n\t\toldTierInfo.SortedPolicies.Delete(PolKV{Key: key, Value: newPolicy})\n", Expect: "C03.treekey/delete/PolKV@PolicySorter.UpdatePolicy"},
+			{Name: "policy update within a tier deletes the old tree entry with the new metadata", File: "felix/calc/policy_sorter.go",
+				Old: "\t\t\ttierInfo.SortedPolicies.Delete(PolKV{Key: key, Value: oldPolicy})\n\t\t}\n\t\ttierInfo.SortedPolicies.ReplaceOrInsert(", New: "\t\t\ttierInfo.SortedPolicies.Delete(PolKV{Key: key, Value: newPolicy})\n\t\t}\n\t\ttierInfo.SortedPolicies.ReplaceOrInsert(", Expect: "C03.treekey/delete/PolKV@PolicySorter.UpdatePolicy"},
+			{Name: "policy moved to another tier is deleted from the old tier's tree with the value stored in the NEW tier", File: "felix/calc/policy_sorter.go",
+				Old: "\t\toldPolicy := oldTierInfo.Policies[key]\n", New: "\t\toldPolicy := tierInfo.Policies[key]\n", Expect: "C03.treekey/delete/PolKV@PolicySorter.UpdatePolicy"},
+			{Name: "inserted policy not recorded in the tier's Policies map", File: "felix/calc/policy_sorter.go",
+				Old: "\t\ttierInfo.Policies[key] = *newPolicy\n", New: "", Expect: "C03.treekey/insert/PolKV@PolicySorter.UpdatePolicy"},
+			{Name: "deleted tier's old sort key is rebuilt after Valid was cleared", File: "felix/calc/policy_sorter.go",
+				Old: "\t\t\t\toldKey := tierInfoKey{\n\t\t\t\t\tName:  tierInfo.Name,\n\t\t\t\t\tOrder: tierInfo.Order,\n\t\t\t\t\tValid: tierInfo.Valid,\n\t\t\t\t}\n\t\t\t\tpoc.sortedTiers.Delete(oldKey)\n\t\t\t\ttierInfo.Valid = false\n",
+				New: "\t\t\t\ttierInfo.Valid = false\n\t\t\t\toldKey := tierInfoKey{\n\t\t\t\t\tName:  tierInfo.Name,\n\t\t\t\t\tOrder: tierInfo.Order,\n\t\t\t\t\tValid: tierInfo.Valid,\n\t\t\t\t}\n\t\t\t\tpoc.sortedTiers.Delete(oldKey)\n", Expect: "C03.treekey/delete/tierInfoKey@PolicySorter.OnUpdate"},
+			{Name: "tier update deletes the old sort key using the incoming order", File: "felix/calc/policy_sorter.go",
+				Old: "\t\t\t\toldKey := tierInfoKey{\n\t\t\t\t\tName:  tierInfo.Name,\n\t\t\t\t\tOrder: tierInfo.Order,\n\t\t\t\t\tValid: tierInfo.Valid,\n\t\t\t\t}\n\t\t\t\tpoc.sortedTiers.Delete(oldKey)\n\t\t\t}\n\t\t\tif tierInfo.Order != newTier.Order {",
+				New: "\t\t\t\toldKey := tierInfoKey{\n\t\t\t\t\tName:  tierInfo.Name,\n\t\t\t\t\tOrder: newTier.Order,\n\t\t\t\t\tValid: tierInfo.Valid,\n\t\t\t\t}\n\t\t\t\tpoc.sortedTiers.Delete(oldKey)\n\t\t\t}\n\t\t\tif tierInfo.Order != newTier.Order {", Expect: "C03.treekey/delete/tierInfoKey@PolicySorter.OnUpdate"},
+			{Name: "seed C03-4: reverse match map entry dropped when the selector's (not the endpoint's) set is empty", File: "felix/labelindex/label_inheritance_index.go",
+				Old: "\t\tidx.selIdsByLabelId[labelId].Discard(selId)\n\t\tif idx.selIdsByLabelId[labelId].Len() == 0 {", New: "\t\tidx.selIdsByLabelId[labelId].Discard(selId)\n\t\tif labelIds.Len() == 0 {", Expect: "C03.alternate/drop/selIdsByLabelId@InheritIndex.deleteMatch"},
 			{Name: "sorted tiers produced by a descending walk", File: "felix/calc/policy_sorter.go",
 				Old: "\t\tpoc.sortedTiers.Ascend(func(t tierInfoKey) bool {", New: "\t\tpoc.sortedTiers.Descend(func(t tierInfoKey) bool {", Expect: "C03.sortfeeds/ascend/"},
 		},
@@ -106,6 +126,8 @@ func init() {
 const c03BtreePkg = "github.com/google/btree"
 
 const c03LabelPkg = "felix/labelindex"
+
+const c03TreeKeyText = "every item handed to Delete on a sorted btree of PolicySorter is rebuilt from what is stored (PolKV.Value: a copy of the same tier's Policies[same key]; tierInfoKey: each field read from the same-named field of one TierInfo before it is reassigned), and every item handed to ReplaceOrInsert is what is stored from then on (PolKV{k,v} accompanied by Policies[k] = *v of that tier on every path; tierInfoKey fields read after their last reassignment)"
 
 func runC03(c *Ctx) {
 	p := c.Load(calcPkg, c03LabelPkg)
@@ -120,17 +142,30 @@ func runC03(c *Ctx) {
 	c.Rule("C03.inheritreg", "E-GUARD/E-ORDER/E-FLOW", "label inheritance plumbing (shared with C07.parentreg): a parent registry entry is deleted only when it has no children and no labels; an item is unregistered from / the registry entry dropped for an old parent only if that parent is not among the item's new parents (or after re-registration); an item's parent list holds registry objects only", 4)
 	c.Rule("C03.sortfeeds", "E-FLOW/E-OWN", "sortedTierData only from PolicySorter.Sorted(); per-endpoint appends only under range over sortedTierData/OrderedPolicies; Sorted() appends only inside Ascend callbacks; OrderedPolicies has no other writer", 6)
 
-	cmps := c03Comparators(c, p)
-	c03Total(c, p, cmps)
-	c03Ascending(c, p, cmps)
-	c03TieBreak(c, p, cmps)
-	c03OwnFirst(c, p)
-	c03UnsetLast(c, p)
-	c03DirSplit(c, p)
-	c03Mirror(c, p)
-	c03SortFeeds(c, p)
-	c03KeySync(c, p)
-	c07ParentReg(c, p, "C03.inheritreg")
+	// Each family runs on its own (c01Isolated): an anchor lost by one of them breaks
+	// the run but does not silence the families that do not depend on it.
+	c01Isolated(c, func() {
+		cmps := c03Comparators(c, p)
+		c01Isolated(c, func() { c03Total(c, p, cmps) })
+		c01Isolated(c, func() { c03Ascending(c, p, cmps) })
+		c01Isolated(c, func() { c03TieBreak(c, p, cmps) })
+	})
+	c01Isolated(c, func() { c03OwnFirst(c, p) })
+	c01Isolated(c, func() { c03UnsetLast(c, p) })
+	c01Isolated(c, func() { c03DirSplit(c, p) })
+	c01Isolated(c, func() { c03Mirror(c, p) })
+	c01Isolated(c, func() { c03SortFeeds(c, p) })
+	c01Isolated(c, func() { c03KeySync(c, p) })
+	c.Rule("C03.treekey", "E-PAIR/E-FLOW", c03TreeKeyText, 11)
+	c01Isolated(c, func() { c03TreeKey(c, p) })
+	// match-start/stop alternation of the label index (implemented in rules_C07.go): the policy<->endpoint
+	// match relation that PolicyResolver mirrors is exactly the set of selector matches only if every
+	// OnMatchStarted is eventually followed by its OnMatchStopped — the index's two match maps must stay mirrors.
+	c.Alias("C07.alternate", "C03.alternate", func() {
+		c.Rule("C07.alternate", "E-GUARD/E-PAIR/E-OWN", "label index (shared with C07.alternate): each OnMatchStarted/OnMatchStopped call is guarded by (non-)membership of the pair in a match map, paired with Add/Discard on that map and its mirror; match maps are mutated, created and dropped nowhere else (an entry is dropped only when its own set is empty)", 16)
+		c01Isolated(c, func() { c07Alternate(c, c07BuildModel(c, p)) })
+	})
+	c01Isolated(c, func() { c07ParentReg(c, p, "C03.inheritreg") })
 }
 
 // ------------------------------------------------------------ comparators --
@@ -1080,50 +1115,26 @@ func c03Mirror(c *Ctx, p *Prog) {
 	if n == 0 {
 		c.Lost("no Put/Discard on the PolicyResolver match indexes")
 	}
-	// the per-endpoint filter
-	ordF, _ := p.LookupObj(calcPkg, "TierInfo.OrderedPolicies").(*types.Var)
-	if ordF == nil {
-		c.Lost("TierInfo.OrderedPolicies")
+	// the per-endpoint filter.  The appends are located through the value flow into the tiers argument of the
+	// OnEndpointTierUpdate callback (the loop may live in a helper whose result is
+	// passed on); "the endpoint being sent" is the callback's first argument, mapped
+	// through the parameters of the helpers on the way.
+	flow := c03BuildTierFlow(p)
+	if flow == nil {
+		c.Lost("no OnEndpointTierUpdate call with a []TierInfo argument in felix/calc")
 	}
 	nf := 0
-	for _, f := range methods {
-		// endpoint identity: first argument of the OnEndpointTierUpdate callback in this function
-		var epIDs []string
-		for _, cs := range callsIn(f, false, func(fn *types.Func) bool { return fn.Name() == "OnEndpointTierUpdate" }) {
-			if len(cs.Args()) >= 2 {
-				epIDs = append(epIDs, c01KeyID(cs.Args()[1]))
-			}
-		}
-		for _, st := range storesToField(f, false, "TierInfo", "OrderedPolicies") {
-			if fieldVar(st.Addr) != ordF {
-				continue
-			}
-			call, ok := st.Val.(*ssa.Call)
-			if !ok {
-				continue
-			}
-			if b, ok := call.Common().Value.(*ssa.Builtin); !ok || b.Name() != "append" {
-				continue
-			}
-			nf++
-			g := guardedCut(st, callCond(true, func(cs CallSite) bool {
-				if cs.Callee == nil || cs.Callee.Name() != "Contains" || len(cs.Args()) != 3 || fieldVar(cs.Args()[0]) != byEndpoint {
-					return false
-				}
-				for _, id := range epIDs {
-					if c01KeyID(cs.Args()[1]) == id {
-						return true
-					}
-				}
-				return false
-			}))
-			c.Check(g, "C03.mirror/filter/"+fnName(f), p.Pos(st.Pos()),
-				"policy appended to the endpoint's tier only under "+byEndpoint.Name()+".Contains(endpoint, policy)",
-				fmt.Sprintf("%s appends to the endpoint's OrderedPolicies without a dominating %s.Contains(<the endpoint being sent>, policy): the endpoint's list is not exactly its matching policies", fnName(f), byEndpoint.Name()))
-		}
+	for _, a := range flow.AppendsOf("PolKV") {
+		nf++
+		g := guardedCut(a.Call, callCond(true, func(cs CallSite) bool {
+			return c03MatchTest(cs, byEndpoint, flow.IsEndpoint, 0)
+		}))
+		c.Check(g, "C03.mirror/filter/"+fnName(a.Fn), p.Pos(a.Call.Pos()),
+			"policy appended to the endpoint's tier only under "+byEndpoint.Name()+".Contains(endpoint, policy)",
+			fmt.Sprintf("%s appends a policy to the list that reaches OnEndpointTierUpdate without a dominating %s.Contains(<the endpoint being sent>, policy): the endpoint's list is not exactly its matching policies", fnName(a.Fn), byEndpoint.Name()))
 	}
 	if nf == 0 {
-		c.Lost("no per-endpoint append to TierInfo.OrderedPolicies in PolicyResolver")
+		c.Lost("no append of a PolKV flows into the tiers argument of OnEndpointTierUpdate")
 	}
 }
 
@@ -1163,40 +1174,62 @@ func c03SortFeeds(c *Ctx, p *Prog) {
 		c.Lost("no assignment to PolicyResolver.sortedTierData")
 	}
 	// (2) per-endpoint appends happen under range over the sorted slices
+	// (the appends that build what reaches the tiers argument of OnEndpointTierUpdate,
+	// found by value flow: the loop may sit in a helper of the sending function)
+	flow := c03BuildTierFlow(p)
+	if flow == nil {
+		c.Lost("no OnEndpointTierUpdate call with a []TierInfo argument in felix/calc")
+	}
+	c01Isolated(c, func() { c03SortFeedsRange(c, p, flow, stdF, ordF) })
+	c01Isolated(c, func() { c03SortFeedsAscend(c, p, sorted) })
+	c03SortFeedsOwners(c, p, flow, sorted, ordF)
+}
+
+func c03SortFeedsRange(c *Ctx, p *Prog, flow *c03TierFlow, stdF, ordF *types.Var) {
 	nr := 0
-	for _, f := range withClosures(p.methodsOf(calcPkg, "PolicyResolver")) {
-		if len(callsIn(f, false, func(fn *types.Func) bool { return fn.Name() == "OnEndpointTierUpdate" })) == 0 {
-			continue
+	for _, a := range flow.AppendsOf("TierInfo", "PolKV") {
+		nr++
+		// the enclosing range statement; an append that sits in a helper / local
+		// closure without a loop of its own is judged at the helper's call sites
+		over := "no enclosing range statement"
+		var rangedOK func(fn *ssa.Function, pos token.Pos, depth int) bool
+		rangedOK = func(fn *ssa.Function, pos token.Pos, depth int) bool {
+			rfs, rs := c03RangedFields(p, fn, pos)
+			if rs == nil {
+				sites := flow.callers()[fn]
+				if depth >= 2 || len(sites) == 0 {
+					return false
+				}
+				for _, ci := range sites {
+					if !rangedOK(ci.Parent(), ci.Pos(), depth+1) {
+						return false
+					}
+				}
+				return true
+			}
+			over = "range over " + types.ExprString(rs.X)
+			if len(rfs) == 0 {
+				return false
+			}
+			for _, rf := range rfs {
+				if rf != stdF && rf != ordF {
+					return false
+				}
+			}
+			return true
 		}
-		allInstrs(f, false, func(fn *ssa.Function, in ssa.Instruction) {
-			cc, ok := isBuiltinCall(in, "append")
-			if !ok {
-				return
-			}
-			sl, _ := cc.Args[0].Type().Underlying().(*types.Slice)
-			if sl == nil {
-				return
-			}
-			et := namedTypeName(sl.Elem())
-			if et != "TierInfo" && et != "PolKV" {
-				return
-			}
-			nr++
-			rf, rs := p.rangedField(in.Pos())
-			good := rs != nil && (rf == stdF || rf == ordF)
-			over := "no enclosing range statement"
-			if rs != nil {
-				over = "range over " + types.ExprString(rs.X)
-			}
-			c.Check(good, "C03.sortfeeds/range/"+et+"@"+fnName(fn), p.Pos(in.Pos()),
-				"append([]"+et+") inside "+over,
-				fmt.Sprintf("%s appends to the endpoint's []%s inside %s; only iteration over sortedTierData / OrderedPolicies preserves the sorter's order", fnName(fn), et, over))
-		})
+		good := rangedOK(a.Fn, a.Call.Pos(), 0)
+		c.Check(good, "C03.sortfeeds/range/"+a.Elem+"@"+fnName(a.Fn), p.Pos(a.Call.Pos()),
+			"append([]"+a.Elem+") inside "+over,
+			fmt.Sprintf("%s appends to the endpoint's []%s inside %s; only iteration over sortedTierData / OrderedPolicies preserves the sorter's order", fnName(a.Fn), a.Elem, over))
 	}
 	if nr == 0 {
-		c.Lost("no per-endpoint append of TierInfo/PolKV next to OnEndpointTierUpdate")
+		c.Lost("no append of TierInfo/PolKV flows into the tiers argument of OnEndpointTierUpdate")
 	}
-	// (3) Sorted() appends only inside Ascend callbacks
+}
+
+// (3) Sorted() appends only inside Ascend callbacks
+func c03SortFeedsAscend(c *Ctx, p *Prog, sorted *ssa.Function) {
 	na := 0
 	for _, cl := range withClosures([]*ssa.Function{sorted}) {
 		hasAppend := false
@@ -1242,8 +1275,11 @@ func c03SortFeeds(c *Ctx, p *Prog) {
 	if na == 0 {
 		c.Lost("PolicySorter.Sorted: no append of TierInfo/PolKV")
 	}
-	// (4) writers of OrderedPolicies: the sorter's Sorted() and the function that
-	// builds the per-endpoint filtered copy (the one calling OnEndpointTierUpdate)
+}
+
+// (4) writers of OrderedPolicies: the sorter's Sorted() and the stores into the
+// per-endpoint filtered copy that reaches OnEndpointTierUpdate
+func c03SortFeedsOwners(c *Ctx, p *Prog, flow *c03TierFlow, sorted *ssa.Function, ordF *types.Var) {
 	writers := map[string]string{}
 	var extra []string
 	for _, f := range p.AllFuncs() {
@@ -1252,12 +1288,16 @@ func c03SortFeeds(c *Ctx, p *Prog) {
 				continue
 			}
 			top := topFn(f)
+			if flow.Stores[st] && top != sorted {
+				// a store into the per-endpoint copy that reaches OnEndpointTierUpdate
+				writers[fnName(top)+" (per-endpoint copy)"] = p.Pos(st.Pos())
+				continue
+			}
 			if _, dup := writers[fnName(top)]; dup {
 				continue
 			}
 			writers[fnName(top)] = p.Pos(st.Pos())
-			allowed := top == sorted ||
-				(c03RecvTypeName(top) == "PolicyResolver" && len(callsIn(top, true, func(fn *types.Func) bool { return fn.Name() == "OnEndpointTierUpdate" })) > 0)
+			allowed := top == sorted
 			if !allowed {
 				extra = append(extra, fnName(top)+" ("+p.Pos(st.Pos())+")")
 			}
